@@ -25,6 +25,7 @@ inductive Micro where
   | rdg                         -- any other access to the shared graph structure
   | read (c : Nat)              -- reg := ctr c
   | bump (c k : Nat)            -- ctr c := ctr c + k           (one source line)
+  | bumpReg (c k : Nat)         -- ctr c := reg + k             (`self.start_id = new_id + 1` with `new_id` read earlier)
   | add (c g k : Nat)           -- insert ids reg .. reg+k-1 into id space c, owner g
   | addFrom (c g lo k : Nat)    -- insert ids lo .. lo+k-1 into id space c, owner g
   | setCtr (c v : Nat)          -- ctr c := v
@@ -243,6 +244,10 @@ def loopC (body : List Micro → List (List Micro × Out)) : Nat → List Micro 
 def consume : Stmt → List Micro → List (List Micro × Out)
   | .skip, tr => [(tr, .norm)]
   | .prim .loc b, tr => (tr, .norm) :: (if b then [(tr, .exc)] else [])   -- thread-local work is not observed
+  | .prim .rdg b, tr =>         -- a read of the graph structure is observed when it touches a node dictionary, not otherwise
+    (match tr with
+      | .rdg :: rest => (rest, .norm) :: (if b then [(rest, .exc)] else [])
+      | _ => []) ++ (tr, .norm) :: (if b then [(tr, .exc)] else [])
   | .prim m b, tr =>
     (match tr with
       | x :: rest => if x = m then (rest, .norm) :: (if b then [(rest, .exc)] else []) else []
@@ -260,12 +265,45 @@ def consume : Stmt → List Micro → List (List Micro × Out)
 def isPath (s : Stmt) (tr : List Micro) (o : Out) : Bool :=
   (consume s tr).any fun (r, o') => r.isEmpty && o' == o
 
+/-! ## instantiating the symbolic parameters of a generated skeleton
+
+gen/lockcfg.py writes counter 0 for `start_id` and counter 1 for `graph_node_ids[graph_id]`, graph 1 for the `graph_id`
+argument, size `symK` for `len(temp_graph)` and `symK + 1` for `len(temp_graph) + 1`.  A call on graph `g` importing `k`
+nodes runs the skeleton with these replaced; an insertion of zero nodes is at most a read. -/
+
+def symK : Nat := 100
+
+def instCtr (g c : Nat) : Nat := if c = 0 then 0 else g
+def instSize (k s : Nat) : Nat := if s = symK then k else if s = symK + 1 then k + 1 else s
+
+def instMicro (g k : Nat) : Micro → Micro
+  | .read c => .read (instCtr g c)
+  | .bump c n => .bump (instCtr g c) (instSize k n)
+  | .bumpReg c n => .bumpReg (instCtr g c) (instSize k n)
+  | .add c _ n => if instSize k n = 0 then .rdg else .add (instCtr g c) g (instSize k n)
+  | .addFrom c _ lo n => if instSize k n = 0 then .rdg else .addFrom (instCtr g c) g lo (instSize k n)
+  | .setCtr c v => .setCtr (instCtr g c) (instSize k v)
+  | .del _ => .del g
+  | .delSpace c => .delSpace (instCtr g c)
+  | m => m
+
+def instStmt (g k : Nat) : Stmt → Stmt
+  | .prim m b => .prim (instMicro g k m) b
+  | .seq a b => .seq (instStmt g k a) (instStmt g k b)
+  | .ite a b => .ite (instStmt g k a) (instStmt g k b)
+  | .loop b => .loop (instStmt g k b)
+  | .tryFinally b f => .tryFinally (instStmt g k b) (instStmt g k f)
+  | .tryExcept b h => .tryExcept (instStmt g k b) (instStmt g k h)
+  | .call b => .call (instStmt g k b)
+  | s => s
+
 /-! ## monitor 2: allocation discipline
 
 Shared state (`ctr`, the node set) is written only with the lock held, and each locked region
 uses one of the allocation idioms that exist in the two stores:
 
-* `read c ; bump c k ; add c _ k`  or  `read c ; add c _ k ; bump c k`  (ids from the counter)
+* `read c ; bump c k ; add c _ k`  or  `read c ; add c _ k ; bump c k`  (ids from the counter; `bumpReg c k`, which
+  writes `reg + k` instead of `ctr c + k`, may stand for `bump c k`: under the lock `reg = ctr c`)
 * `delSpace c ; addFrom c _ lo k ; setCtr c (lo+k)`                     (id space rebuilt from scratch)
 
 plus deletions and plain reads.  `out` = lock not held by this thread. -/
@@ -296,12 +334,15 @@ def discStep : DQ → Micro → DQ
   | .idle, .delSpace c => .clr c
   | .rd c, .read c' => if c' = c then .rd c else .bad
   | .rd c, .bump c' k => if c' = c then .rdB c k else .bad
+  | .rd c, .bumpReg c' k => if c' = c then .rdB c k else .bad
   | .rd c, .add c' _ k => if c' = c then .rdA c k else .bad
   | .rdB c k, .add c' _ k' => if c' = c ∧ k' = k then .idle else .bad
   | .rdA c k, .bump c' k' => if c' = c ∧ k' = k then .idle else .bad
+  | .rdA c k, .bumpReg c' k' => if c' = c ∧ k' = k then .idle else .bad
   | .clr c, .delSpace c' => if c' = c then .clr c else .bad
   | .clr c, .addFrom c' _ lo k => if c' = c then .fil c (lo + k) else .bad
   | .fil c n, .setCtr c' v => if c' = c ∧ v = n then .idle else .bad
+  | .clr c, .setCtr c' _ => if c' = c then .idle else .bad      -- the id space is empty: any counter value is above every id
   | _, _ => .bad
 
 /-- a whole thread program is accepted: starts and ends outside the lock, never `bad` -/
